@@ -596,7 +596,10 @@ def main_run(mod, tier, seed, only=None, replay=None):
         violations=len(violations),
     )
     os.makedirs(os.path.join(VERIF, "evidence"), exist_ok=True)
-    with open(os.path.join(VERIF, "evidence", f"{prop}.json"), "w") as f:
+    # a run restricted with --only describes part of the check: it is kept
+    # apart from the evidence of the registered command
+    name = f"{prop}.json" if not only else f"{prop}.partial.json"
+    with open(os.path.join(VERIF, "evidence", name), "w") as f:
         json.dump(ev, f, indent=1, default=_jsonable)
 
     print(f"[{prop}] tier={tier} seed={seed} evaluations={total.evaluations} "
